@@ -24,6 +24,10 @@ fn subset(arg: &[u8], pat: &[u8]) -> bool {
     arg.len() == pat.len() && arg.iter().zip(pat).all(|(x, p)| x & !p == 0)
 }
 
+pub fn dispatch(case: &Case) -> PResult {
+    check(case)
+}
+
 fn check(case: &Case) -> PResult {
     let sy = Syms::<IupacC>::new()?;
     let (ca, cb) = (&case.a.codes, &case.b.codes);
